@@ -28,11 +28,11 @@ func (c08) Runs(tier string) int64 {
 	if tier == "thorough" {
 		return 24000000
 	}
-	return 40000
+	return 400000
 }
 func (c08) Prefix(string, int64) []uint64 { return nil }
 
-var c08weights = InputWeights{Corpus: 3, Valid: 6, ICCDamaged: 2, Damaged: 3, SigJunk: 1, Polyglot: 1, ShortSOF: 1}
+var c08weights = InputWeights{Corpus: 3, Valid: 6, ICCDamaged: 2, Damaged: 3, SigJunk: 1, Polyglot: 1, ShortSOF: 1, Soup: 3}
 var c08iccSizes = []int{1, 2, 127, 500, 3000, 4000, 4090, 4096, 4100, 8192, 20000, 70000}
 
 // ICCView is the observable content of a profile read.
@@ -118,6 +118,27 @@ func c08image(t *tape.Tape, st *Stats) *Violation {
 		}
 	default:
 		loader = Loaders[t.Intn(4)]
+	}
+	// a fifth of the inputs is additionally cut at the start or end of a drawn
+	// structure (or inside it): how the last bytes arrive - alone, or together
+	// with EOF - then matters right at a structure boundary
+	if t.Chance(1, 5) && len(in.Fields) > 0 && len(in.Data) > 0 {
+		f := in.Fields[t.Intn(len(in.Fields))]
+		n := f.Off
+		switch t.Intn(3) {
+		case 1:
+			n = f.Off + f.Width
+		case 2:
+			n = f.Off + t.Intn(f.Width+1)
+		}
+		if n <= len(in.Data) {
+			in.Data = in.Data[:n]
+			in.Desc += fmt.Sprintf(" cut at %d (%s)", n, f.Name)
+			in.Truth = nil
+		}
+	} else {
+		t.Intn(1)
+		t.Intn(3)
 	}
 	cfg := DrawDelivery(t, in.Fields, true)
 	ref := SafeLoad(loader, simio.NewSource(simio.Bytes(in.Data), simio.Config{TruncAt: -1, ErrAt: -1}))
